@@ -15,7 +15,7 @@ EXPLANATION = (
     "(R6) the series parser skips blank/comment lines before option parsing, knows -p/--strip (with argument) and -R, and both "
     "reach the SeriesPatch built for the line. (R7) stripping draws exactly one leading component per unit of the entry's level - a loop over 0..level with "
     "one Components::next() per iteration and none elsewhere, the rest taken with as_path() after the loop - from each name that is "
-    "present, in both representations of a name (owned / borrowed). Not decided: what Path::components() takes for a component (runs of "
+    "present, in both representations of a name (owned / borrowed). (R3c) the four-row resolution table (in memory / deleted / on disk) holds by reachability under each valuation, (R1c) what is enumerated to index the series is the series, (R8/R9) related names are scheduled together under the two names of the file patch. Not decided: what Path::components() takes for a component (runs of "
     "slashes, '.') and names with fewer than N components."
 )
 LEVEL_NOTE = "Undecided: Path::components semantics of stripping; behaviour when the name has fewer than N components."
